@@ -9,10 +9,19 @@ import functools
 import itertools
 import operator
 
+import inspect
+
 import jax
 import jax.numpy as jnp
+import numpy as np
 import pandas as pd
+from dags import concatenate_functions
+from dags.signature import with_signature
 from jax.ops import segment_max
+
+from lcm.dispatchers import productmap
+from lcm.ndimage import map_coordinates
+from lcm.state_space import _combine_masks
 
 
 # ------------------------------------------------------------------ argmax.py (C18, C02)
@@ -215,3 +224,174 @@ def all_as_args(args, kwargs, arg_names):
 # ------------------------------------------------------------------ state_space.py (C17)
 def _create_value_grid(grids, subset):
     return {name: grid for name, grid in grids.items() if name in subset}
+
+
+# ------------------------------------------------------------------ state_space.py (C17, C05)
+def create_filter_mask(model, subset, fixed_inputs=None, *, jit_filter):
+    if subset is None:
+        subset = model.variable_info.query("is_sparse").index.tolist()
+    fixed_inputs = {} if fixed_inputs is None else fixed_inputs
+    _axis_names = [name for name in model.grids if name in subset]
+    _filter_names = model.function_info.query("is_filter").index.tolist()
+    _scalar_filter = concatenate_functions(
+        functions=model.functions, targets=_filter_names, aggregator=jnp.logical_and
+    )
+    _filter = productmap(_scalar_filter, variables=_axis_names)
+    _valid_args = set(inspect.signature(_filter).parameters.keys())
+    _potential_kwargs = {**model.grids, **fixed_inputs}
+    kwargs = {k: v for k, v in _potential_kwargs.items() if k in _valid_args}
+    if jit_filter:
+        _filter = jax.jit(_filter)
+    return _filter(**kwargs)
+
+
+def create_combination_grid(grids, masks, subset=None):
+    _subset = list(grids) if subset is None else subset
+    _axis_names = [name for name in grids if name in _subset]
+    _grids = {name: jnp.array(grids[name]) for name in _axis_names}
+    _mask_np = np.array(_combine_masks(masks))
+    _all_combis = jnp.meshgrid(*_grids.values(), indexing="ij")
+    return {name: arr[_mask_np] for name, arr in zip(_axis_names, _all_combis, strict=True)}
+
+
+def create_indexers_and_segments(mask, n_sparse_states, fill_value=-1):
+    mask = np.array(mask)
+    choice_axes = tuple(range(n_sparse_states, mask.ndim))
+    is_feasible_state = mask.any(axis=choice_axes)
+    n_feasible_states = np.count_nonzero(is_feasible_state)
+    state_indexer = np.full(is_feasible_state.shape, fill_value)
+    state_indexer[is_feasible_state] = np.arange(n_feasible_states)
+    reduced_mask = mask[is_feasible_state]
+    counter = reduced_mask.cumsum().reshape(reduced_mask.shape) - 1
+    state_choice_indexer = np.full(reduced_mask.shape, fill_value)
+    state_choice_indexer[reduced_mask] = counter[reduced_mask]
+    new_choice_axes = tuple(range(1, mask.ndim - n_sparse_states + 1))
+    n_choices = np.count_nonzero(reduced_mask, new_choice_axes)
+    segments = np.repeat(np.arange(n_feasible_states), n_choices)
+    return (
+        jnp.array(state_indexer),
+        jnp.array(state_choice_indexer),
+        {"segment_ids": jnp.array(segments), "num_segments": n_feasible_states},
+    )
+
+
+# ------------------------------------------------------------------ closures made by small factories
+def _get_stochastic_weight_function(raw_func, name, variable_info):
+    function_parameters = list(inspect.signature(raw_func).parameters)
+    invalid = {
+        arg for arg in function_parameters if arg != "_period" and not variable_info.loc[arg, "is_discrete"]
+    }
+    if invalid:
+        raise ValueError("message")
+    new_kwargs = [*function_parameters, "params"]
+
+    @with_signature(args=new_kwargs)
+    def weight_func(*args, **kwargs):
+        args = all_as_args(args, kwargs, arg_names=new_kwargs)
+        params = args[-1]
+        indices = args[:-1]
+        return params["shocks"][name][*indices]
+
+    return weight_func
+
+
+def _get_stochastic_next_function(raw_func, grid):
+    @functools.wraps(raw_func)
+    def next_func(*args, **kwargs):
+        return grid
+
+    return next_func
+
+
+def _replace_func_parameters_by_params(func, params, name):
+    old_signature = list(inspect.signature(func).parameters)
+    new_kwargs = [p for p in old_signature if p not in params[name]] + ["params"]
+
+    @with_signature(args=new_kwargs)
+    @functools.wraps(func)
+    def processed_func(*args, **kwargs):
+        kwargs = all_as_kwargs(args, kwargs, arg_names=new_kwargs)
+        _kwargs = {k: v for k, v in kwargs.items() if k in new_kwargs and k != "params"}
+        return func(**_kwargs, **kwargs["params"][name])
+
+    return processed_func
+
+
+def _add_dummy_params_argument(func):
+    old_signature = list(inspect.signature(func).parameters)
+    new_kwargs = [*old_signature, "params"]
+
+    @with_signature(args=new_kwargs)
+    @functools.wraps(func)
+    def processed_func(*args, **kwargs):
+        kwargs = all_as_kwargs(args, kwargs, arg_names=new_kwargs)
+        _kwargs = {k: v for k, v in kwargs.items() if k != "params"}
+        return func(**_kwargs)
+
+    return processed_func
+
+
+def _get_stochastic_next_func(name, grids):
+    arg_names = ["keys", f"weight_{name}"]
+    labels = grids[name.removeprefix("next_")]
+
+    @with_signature(args=arg_names)
+    def _next_stochastic_state(*args, **kwargs):
+        keys, weights = all_as_args(args, kwargs, arg_names=arg_names)
+        return random_choice(key=keys[name], probs=weights, labels=labels)
+
+    return _next_stochastic_state
+
+
+def get_multiply_weights(stochastic_variables):
+    arg_names = [f"weight_next_{var}" for var in stochastic_variables]
+
+    @with_signature(args=arg_names)
+    def _outer(*args, **kwargs):
+        args = all_as_args(args, kwargs, arg_names=arg_names)
+        return jnp.prod(jnp.array(args))
+
+    return productmap(_outer, variables=arg_names)
+
+
+def _get_label_translator(in_name):
+    @with_signature(args=[in_name])
+    def translate_label(*args, **kwargs):
+        kwargs = all_as_kwargs(args, kwargs, arg_names=[in_name])
+        return kwargs[in_name]
+
+    return translate_label
+
+
+def _get_lookup_function(array_name, axis_names):
+    arg_names = [*axis_names, array_name]
+
+    @with_signature(args=arg_names)
+    def lookup_wrapper(*args, **kwargs):
+        kwargs = all_as_kwargs(args, kwargs, arg_names=arg_names)
+        positions = tuple(kwargs[var] for var in axis_names)
+        arr = kwargs[array_name]
+        return arr[positions]
+
+    return lookup_wrapper
+
+
+def _get_coordinate_finder(in_name, grid):
+    @with_signature(args=[in_name])
+    def find_coordinate(*args, **kwargs):
+        kwargs = all_as_kwargs(args, kwargs, arg_names=[in_name])
+        return grid.get_coordinate(kwargs[in_name])
+
+    return find_coordinate
+
+
+def _get_interpolator(name_of_values_on_grid, axis_names):
+    arg_names = [name_of_values_on_grid, *axis_names]
+
+    @with_signature(args=arg_names)
+    def interpolate(*args, **kwargs):
+        kwargs = all_as_kwargs(args, kwargs, arg_names=arg_names)
+        coordinates = jnp.array([kwargs[var] for var in axis_names])
+        return map_coordinates(input=kwargs[name_of_values_on_grid], coordinates=coordinates)
+
+    return interpolate
